@@ -2327,3 +2327,13 @@ V("C18", "benign_label_assignment_index_inline", "benign", None, (P, "          
 V("C14", "benign_update_assigns_through_a_local_target", "benign", None, (Z, "                    raise ValueError(f\"{k!r} is not a parameter of {self_.cls.__name__}\")\n                setattr(self_or_cls, k, v)", "                    raise ValueError(f\"{k!r} is not a parameter of {self_.cls.__name__}\")\n                target = self_or_cls\n                setattr(target, k, v)"))
 V("C20", "str_printer_with_hand_made_quoting", "fire", "R20.r", (Z, "script_repr_reg[float] = float_script_repr\n", "script_repr_reg[float] = float_script_repr\nscript_repr_reg[str] = lambda_free_str_repr\n"), (Z, "script_repr_reg[list] = container_script_repr\n", "def lambda_free_str_repr(value,imports,prefix,settings):\n    return '\"' + value.replace('\"', '\\\\\"') + '\"'\n\nscript_repr_reg[list] = container_script_repr\n"))
 V("C20", "benign_str_printer_that_is_repr", "benign", None, (Z, "script_repr_reg[float] = float_script_repr\n", "script_repr_reg[float] = float_script_repr\nscript_repr_reg[str] = plain_str_repr\n"), (Z, "script_repr_reg[list] = container_script_repr\n", "def plain_str_repr(value,imports,prefix,settings):\n    return repr(value)\n\nscript_repr_reg[list] = container_script_repr\n"))
+# --- round n
+V("C17", "occupied_slot_recognised_by_its_value", "fire", "R17.v", (Z, "            if hasattr(instance,slot)]", "            if getattr(instance, slot, None) is not None]"))
+V("C17", "benign_occupied_slots_collected_in_a_loop", "benign", None, (Z, "    return [slot for slot in get_all_slots(type(instance))\n            if hasattr(instance,slot)]", "    occupied = []\n    for slot in get_all_slots(type(instance)):\n        if hasattr(instance, slot):\n            occupied.append(slot)\n    return occupied"))
+V("C13", "serializer_reads_the_default_of_the_looked_up_parameter", "fire", "R13.z", ("param/serializer.py", "            value = pobj.param.get_value_generator(name)\n            components[name] = p.serialize(value)", "            stored = getattr(pobj._param__private, 'values', {})\n            value = stored[name] if name in stored else p.default\n            components[name] = p.serialize(value)"))
+V("C13", "benign_serializer_value_inline", "benign", None, ("param/serializer.py", "            value = pobj.param.get_value_generator(name)\n            components[name] = p.serialize(value)", "            components[name] = p.serialize(pobj.param.get_value_generator(name))"))
+V("C20", "none_value_taken_for_an_unknown_argument", "fire", "R20.c", (Z, "                           qualify=qualify) if k in values else None", "                           qualify=qualify) if values.get(k) is not None else None"))
+V("C07", "unwatch_drops_the_queued_delivery", "fire", "R07.j", (Z, "            self_.warning(f'No such watcher {str(watcher)} to remove.')\n", "            self_.warning(f'No such watcher {str(watcher)} to remove.')\n        else:\n            self_._state_watchers = [w for w in self_._state_watchers if w is not watcher]\n"))
+V("C07", "dependencies_deduplicated_by_parameter_object", "fire", "R07.m", (Z, "                dependencies += _params_depended_on(subdep, intermediate=intermediate)[0]\n    return dependencies", "                dependencies += _params_depended_on(subdep, intermediate=intermediate)[0]\n    unique = {}\n    for dep in dependencies:\n        unique.setdefault((dep.pobj, dep.what), dep)\n    return list(unique.values())"))
+V("C06", "dependencies_deduplicated_by_parameter_object", "fire", "R06.m", (Z, "                dependencies += _params_depended_on(subdep, intermediate=intermediate)[0]\n    return dependencies", "                dependencies += _params_depended_on(subdep, intermediate=intermediate)[0]\n    unique = {}\n    for dep in dependencies:\n        unique.setdefault((dep.pobj, dep.what), dep)\n    return list(unique.values())"))
+V("C07", "benign_dependencies_returned_as_a_copy", "benign", None, (Z, "                dependencies += _params_depended_on(subdep, intermediate=intermediate)[0]\n    return dependencies", "                dependencies += _params_depended_on(subdep, intermediate=intermediate)[0]\n    return list(dependencies)"))
